@@ -4,6 +4,8 @@
 #include <streambuf>
 #include <string>
 #include <ios>
+#include <cstring>
+#include <algorithm>
 
 namespace vf {
 
@@ -21,7 +23,8 @@ protected:
     std::streamsize xsgetn(char *s, std::streamsize n) override {
         size_t pos = cur(); size_t lim = std::min(fail_at_, d_.size());
         size_t can = pos < lim ? std::min<size_t>((size_t)n, lim - pos) : 0;
-        memcpy(s, d_.data() + pos, can); reset(pos + can);
+        if (can) memcpy(s, d_.data() + pos, can);
+        reset(pos + can);
         if ((std::streamsize)can < n && pos + can >= fail_at_ && pos + can < d_.size()) { fired_ = true; if (mode_ == THROW) throw std::ios_base::failure("injected read failure"); }
         return (std::streamsize)can;
     }
